@@ -17,6 +17,8 @@ CLAIMS = {
          "index/value validation before unchecked accessors with the structure's own mask; growth writes every new element; conversions copy len/width/mask. Histories as such are not explored."),
  "C06": ("guard dominance + reader-mask rules over typed HIR", "5 C06",
          "checked accessors, iterator bounds, last-word masks in count/eq, push clears the target bit. Histories as such are not explored."),
+ "C13": ("atomic RMW discipline (load/store/CAS classification by receiver kind and data flow) + field-confinement law", "5 C13",
+         "shared words are modified only by single fetch_* or by compare_exchange loops that refresh the expected value and recompute the new word from it; no load->store through &self; every word update is confined to the element's bits and agrees with the non-atomic writer; the concurrent Elias-Fano builder writes through these setters with the sequential split. Memory-order effects other than atomicity are not modelled."),
  "C12": ("unsafe-site census with guard dominance and a table of construction invariants", "5 C12",
          "every unsafe call in a safe function is discharged by dominating facts or rests on a tabled construction invariant; unchecked-precondition functions are unsafe fn; iterator start protocol; universe guard. The construction invariants themselves are assumptions."),
 }
